@@ -35,18 +35,20 @@ type userChains struct {
 	decrypt                  *ssa.Call
 	claimsNested, claimsEnc  *ssa.Call
 	validate                 *ssa.Call
+	steps                    map[*ssa.Call]stepRef
 }
 
 func c15Chains(c *Ctx, rule string) *userChains {
 	fn := c.Fn("cmd/rdpgw/security", "UserInfo")
-	u := &userChains{fn: fn}
+	u := &userChains{fn: fn, steps: map[*ssa.Call]stepRef{}}
 	one := func(what string, names ...string) *ssa.Call {
-		cs := callsTo(fn, names...)
+		cs := c.findSteps(fn, names...)
 		if len(cs) != 1 {
 			c.Bad(rule, shortFn(fn)+" "+what, fn.Pos(), "expected exactly one %s call in UserInfo, found %d", what, len(cs))
 			return nil
 		}
-		return cs[0].(*ssa.Call)
+		u.steps[cs[0].call] = cs[0]
+		return cs[0].call
 	}
 	u.parseNested = one("ParseSignedAndEncrypted", joseJWT+".ParseSignedAndEncrypted")
 	u.parseEnc = one("ParseEncrypted", joseJWT+".ParseEncrypted")
@@ -55,9 +57,10 @@ func c15Chains(c *Ctx, rule string) *userChains {
 	if u.parseNested == nil || u.parseEnc == nil || u.decrypt == nil || u.validate == nil {
 		return nil
 	}
-	for _, ci := range callsTo(fn, "(*"+joseJWT+".JSONWebToken).Claims") {
-		call := ci.(*ssa.Call)
-		switch strip(recvOf(call)) {
+	for _, st := range c.findSteps(fn, "(*"+joseJWT+".JSONWebToken).Claims") {
+		call := st.call
+		u.steps[call] = st
+		switch c.normIn(st, recvOf(call)) {
 		case resultOf(u.decrypt, 0):
 			u.claimsNested = call
 		case resultOf(u.parseEnc, 0):
@@ -66,7 +69,7 @@ func c15Chains(c *Ctx, rule string) *userChains {
 			c.Bad(rule, shortFn(fn)+" Claims.other", call.Pos(), "claims are read from a token that is neither the decrypted nested token nor the parsed encrypted token")
 		}
 	}
-	if a, ok := loadAddr(recvOf(u.validate)); ok {
+	if a, ok := loadAddr(c.upIn(u.steps[u.validate], recvOf(u.validate))); ok {
 		u.std, _ = a.(*ssa.Alloc)
 	}
 	if u.std == nil {
@@ -89,22 +92,22 @@ func c15VerifyChain(c *Ctx) {
 	tokP := fn.Params[1]
 
 	// shapes
-	c.Check(arg(u.parseNested, 0) == ssa.Value(tokP) && arg(u.parseEnc, 0) == ssa.Value(tokP), rule, key+" parse.arg", u.parseNested.Pos(), "both chains parse the token parameter", "a chain parses something other than the token parameter")
-	c.Check(strip(recvOf(u.decrypt)) == resultOf(u.parseNested, 0) && isLoadOfGlobal(arg(u.decrypt, 0), encKey), rule, key+" decrypt.shape", u.decrypt.Pos(), "nested token decrypted under UserEncryptionKey", "Decrypt is not applied to the parsed nested token under security.UserEncryptionKey")
+	c.Check(c.normIn(u.steps[u.parseNested], arg(u.parseNested, 0)) == ssa.Value(tokP) && c.normIn(u.steps[u.parseEnc], arg(u.parseEnc, 0)) == ssa.Value(tokP), rule, key+" parse.arg", u.parseNested.Pos(), "both chains parse the token parameter", "a chain parses something other than the token parameter")
+	c.Check(c.normIn(u.steps[u.decrypt], recvOf(u.decrypt)) == resultOf(u.parseNested, 0) && isLoadOfGlobal(c.upIn(u.steps[u.decrypt], arg(u.decrypt, 0)), encKey), rule, key+" decrypt.shape", u.decrypt.Pos(), "nested token decrypted under UserEncryptionKey", "Decrypt is not applied to the parsed nested token under security.UserEncryptionKey")
 	if u.claimsNested == nil {
 		c.Bad(rule, key+" nested.claims", fn.Pos(), "the nested chain never verifies the inner signature (no Claims call on the decrypted token)")
 	} else {
-		dst := variadicAllocs(arg(u.claimsNested, 1))
-		c.Check(isLoadOfGlobal(arg(u.claimsNested, 0), sigKey) && len(dst) == 1 && dst[0] == u.std, rule, key+" nested.claims", u.claimsNested.Pos(), "inner JWS verified under UserSigningKey into the validated claims", "the nested chain does not verify under security.UserSigningKey into the claims that are validated")
+		dst := c.variadicAllocsUp(u.steps[u.claimsNested], arg(u.claimsNested, 1))
+		c.Check(isLoadOfGlobal(c.upIn(u.steps[u.claimsNested], arg(u.claimsNested, 0)), sigKey) && len(dst) == 1 && dst[0] == u.std, rule, key+" nested.claims", u.claimsNested.Pos(), "inner JWS verified under UserSigningKey into the validated claims", "the nested chain does not verify under security.UserSigningKey into the claims that are validated")
 	}
 	if u.claimsEnc == nil {
 		c.Bad(rule, key+" enc.claims", fn.Pos(), "the encrypt-only chain never decrypts the claims")
 	} else {
-		dst := variadicAllocs(arg(u.claimsEnc, 1))
-		c.Check(isLoadOfGlobal(arg(u.claimsEnc, 0), encKey) && len(dst) == 1 && dst[0] == u.std, rule, key+" enc.claims", u.claimsEnc.Pos(), "JWE decrypted under UserEncryptionKey into the validated claims", "the encrypt-only chain does not decrypt under security.UserEncryptionKey into the claims that are validated")
+		dst := c.variadicAllocsUp(u.steps[u.claimsEnc], arg(u.claimsEnc, 1))
+		c.Check(isLoadOfGlobal(c.upIn(u.steps[u.claimsEnc], arg(u.claimsEnc, 0)), encKey) && len(dst) == 1 && dst[0] == u.std, rule, key+" enc.claims", u.claimsEnc.Pos(), "JWE decrypted under UserEncryptionKey into the validated claims", "the encrypt-only chain does not decrypt under security.UserEncryptionKey into the claims that are validated")
 	}
 	// validate shape
-	iss, now, _, ok := expectedLiteral(arg(u.validate, 0))
+	iss, now, _, ok := c.expectedLiteralR(u.steps[u.validate], arg(u.validate, 0))
 	s, isC := constString(iss)
 	c.Check(ok && isC && s != "" && now, rule, key+" validate.shape", u.validate.Pos(), fmt.Sprintf("Validate(Expected{Issuer: %q, Time: now})", s), "Validate does not check a non-empty constant issuer against the current time")
 
@@ -115,6 +118,13 @@ func c15VerifyChain(c *Ctx) {
 	}
 	if u.claimsEnc != nil {
 		allowed[u.claimsEnc] = true
+	}
+	for _, cl := range []*ssa.Call{u.claimsNested, u.claimsEnc} {
+		if cl != nil {
+			for _, site := range u.steps[cl].via {
+				allowed[site] = true // the helper that holds the verified decode (its body is checked as a step)
+			}
+		}
 	}
 	for _, w := range passedTo(u.std) {
 		if !allowed[w] {
@@ -149,21 +159,16 @@ func c15VerifyChain(c *Ctx) {
 	}
 	for i, e := range exits {
 		ek := fmt.Sprintf("%s exit#%d", key, i)
-		c.requireChecked(rule, ek+" validate", fn, e, u.validate, 0, "issuer/expiry validation")
+		c.requireStep(rule, ek+" validate", fn, e, u.steps[u.validate], 0, "issuer/expiry validation")
 		// the claims returned are the validated local
 		if a, ok := loadAddr(e.Results[0]); !ok || a != ssa.Value(u.std) {
 			c.Bad(rule, ek+" result", e.Pos(), "the claims returned are not the validated ones")
 		}
 		for _, st := range steps {
-			res := resultOf(st.call, st.idx)
-			if res == nil {
-				c.Bad(rule, ek+" "+st.name, st.call.Pos(), "the error of the %s step is discarded", st.name)
-				continue
-			}
 			// once executed, the step's failure must cut the accepting exit off
-			r, path := reachFromAvoiding(fn, st.call.Block(), e.Block(), GErrNil(res))
-			if r {
-				c.Bad(rule, ek+" "+st.name, st.call.Pos(), "after a failed %s the nil-error return is still reachable (blocks %v): a token that does not verify is accepted", st.name, path)
+			okc, whyc := c.stepFailureCuts(fn, e, u.steps[st.call], st.idx)
+			if !okc {
+				c.Bad(rule, ek+" "+st.name, st.call.Pos(), "after a failed %s the nil-error return is not cut off (%s): a token that does not verify is accepted", st.name, whyc)
 			} else {
 				c.OK(rule, ek+" "+st.name, st.call.Pos(), "failure of the %s step makes the accepting return unreachable", st.name)
 			}
@@ -183,9 +188,9 @@ func c15ModeAgreement(c *Ctx) {
 	hasKey := lenAtLeast(isSig, 1)
 	noKey := func(cond ssa.Value, branch bool) bool { return hasKey(cond, !branch) }
 	key := shortFn(u.fn)
-	ok1, why1 := mustPass(u.fn, u.parseEnc, noKey)
+	ok1, why1 := mustPass(u.fn, u.steps[u.parseEnc].siteIn(), noKey)
 	c.Check(ok1, rule, key+" enc-only-guard", u.parseEnc.Pos(), "the encrypt-only chain runs only when no signing key is configured", "the encrypt-only chain is "+why1+" of len(UserSigningKey) == 0: unsigned tokens are accepted in sign-and-encrypt mode")
-	ok2, why2 := mustPass(u.fn, u.parseNested, hasKey)
+	ok2, why2 := mustPass(u.fn, u.steps[u.parseNested].siteIn(), hasKey)
 	c.Check(ok2, rule, key+" nested-guard", u.parseNested.Pos(), "the nested chain runs only when a signing key is configured", "the nested chain is "+why2+" of len(UserSigningKey) > 0")
 	// mint side predicate: signed builder only under len(UserSigningKey) > 0, encrypted-only builder only otherwise
 	gen := c.Fn("cmd/rdpgw/security", "GenerateUserToken")
@@ -211,7 +216,7 @@ func c15Mint(c *Ctx) {
 		ok     bool
 	}{}
 	if u := c15Chains(c, rule); u != nil {
-		if iss, _, _, ok := expectedLiteral(arg(u.validate, 0)); ok {
+		if iss, _, _, ok := c.expectedLiteralR(u.steps[u.validate], arg(u.validate, 0)); ok {
 			ver.issuer, ver.ok = constString(iss)
 		}
 	}
@@ -400,7 +405,7 @@ func c15HTTP(c *Ctx) {
 	}
 	// the token verified is the access_token query parameter
 	tokOK := false
-	for _, o := range origins(arg(ui, 1)) {
+	for _, o := range origins(c.downValue(arg(ui, 1), 0)) {
 		if o.Kind == "other" {
 			if a, ok := loadAddr(o.Value); ok {
 				if ia, ok := a.(*ssa.IndexAddr); ok {
